@@ -550,9 +550,17 @@ func c16Gen(rng *rand.Rand, tier string, i int) *Sexp {
 			doc = doc[:1+rng.Intn(len(doc)-1)]
 			kind = "truncated"
 		case 1:
+			// only separators whose removal cannot MERGE two number tokens: "[0,413]" without its comma is "[0413]", an
+			// octal literal the example grammar accepts (leading zeros / octal are outside the supported subset, where
+			// no agreement with encoding/json is claimed) — an earlier version deleted those too and so demanded the
+			// rejection of documents the property does not speak about: a false alarm of the check, corrected
+			numberish := func(b byte) bool { return b >= '0' && b <= '9' || strings.IndexByte(".eE+-", b) >= 0 }
 			var seps []int
 			for k, b := range doc {
 				if b == ',' || b == ':' {
+					if k > 0 && k+1 < len(doc) && numberish(doc[k-1]) && numberish(doc[k+1]) {
+						continue
+					}
 					seps = append(seps, k)
 				}
 			}
